@@ -1,4 +1,5 @@
 import SamVerif.Props.C11
+import SamVerif.Props.C11b
 /-! Axiom audit of every C11 property theorem. -/
 open SamVerif.Gc
 #print axioms gcStep_safe
@@ -6,3 +7,4 @@ open SamVerif.Gc
 #print axioms results_read
 #print axioms gc_safe
 #print axioms gc_safe_from_init
+#print axioms unannounced_module_counterexample
